@@ -226,6 +226,8 @@ def _execute(spec, tspec, seq, personality, garbage, rng_seq):
             elif kind == "fg_split":
                 r1 = ee.calculate(x, compute_functions=True, compute_gradients=False)
                 delivered.append(("f", r1, [before], x, [_digest(r) for r in r1]))
+                if r1[0].functions is None:
+                    continue       # an optimizer stops here (TOO_FEW_REALIZATIONS); no split gradient request follows
                 before = len(ev.calls)
                 res = ee.calculate(x, compute_functions=False, compute_gradients=True)
                 kind = "g"
